@@ -71,7 +71,7 @@ func vhCrashRecovery() {
 	fsys.advance = true
 	t0 := time.Unix(1700000000, 0)
 	tiers := vParam("TIERS", 3)
-	names := []string{"root", "sub", "leaf"}[:tiers]
+	names := []string{"root", "sub", "leaf", "ee"}[:tiers]
 	for i, nm := range names {
 		issuer := ""
 		if i > 0 {
@@ -92,8 +92,17 @@ func vhCrashRecovery() {
 	}
 	// the interrupted run
 	k := vChoose("failAt", tiers) + 1
-	outcome := vChoose("outcome", 7)
-	tear := []int{-1, 0, 36, 300, 700, 1100, 1 << 30}[outcome] // nothing written / empty file / after hash line / inside certificate / ... / complete
+	tears := []int{-1, 0, 20, 36, 300, 700, 1100, 1 << 30} // nothing written / empty file / inside the hash line / after it / inside certificate / ... / complete
+	if vParam("FINE", 0) == 1 {
+		// every 48 bytes through the whole artifact (hash line 36, certificate and key blocks)
+		tears = []int{-1, 0, 1, 35, 36, 37}
+		for off := 48; off <= 1296; off += 48 {
+			tears = append(tears, off)
+		}
+		tears = append(tears, 1<<30)
+	}
+	outcome := vChoose("outcome", len(tears))
+	tear := tears[outcome]
 	fsys.failAt = fsys.nWrites + k
 	fsys.tearAt = tear
 	planned, generated, err := vRun(fsys)
